@@ -1,6 +1,6 @@
 #!/bin/sh
 # run every claimed check once on the current tree; usage: tools/run_all.sh quick|thorough [ids...]
-cd /verif || exit 3
+cd "$(dirname "$0")/.." || exit 3
 tier=${1:-quick}; shift
 ids=${*:-$(python3 -c "import json; print(' '.join(c['property_id'] for c in json.load(open('MANIFEST.json'))['checks']))")}
 for p in $ids; do
